@@ -40,13 +40,21 @@ class Report:
         if sample is not None and len(self.samples) < 12:
             self.samples.append(sample)
 
-    def violated(self, rule, key, what, detail=None, graphs=None):
+    def violated(self, rule, key, what, detail=None, graphs=None, boundary=None):
         """graphs=(got, expected): the differing value graphs; a concrete distinguishing assignment is
         searched (on the graphs, never on repository code).  With a witness the verdict is definite and the
         witness goes into the replay file; without one the instance is UNDECIDED (the normal forms differ but
         may denote the same function)."""
         if any(v["key"] == "%s:%s" % (rule, key) for v in self.violations):
             return
+        if boundary is not None:
+            # modular rule: the expected side uses an uninterpreted symbol for a function of the repository;
+            # that is only meaningful if the code under analysis reached that function as often as expected
+            it, need = boundary
+            hits = getattr(it, "hook_hits", 0)
+            if hits < need:
+                self.undecide(rule, key, "the modular boundary was met %d time(s), %d expected: the code no longer calls the function this rule abstracts, so the rule cannot decide (%s)" % (hits, need, what[:160]))
+                return
         if graphs is not None:
             from . import bv
             w = bv.find_witness(graphs[0], graphs[1], seed=self.seed)
